@@ -427,6 +427,7 @@ func genMath(w *lib.Writer, r *lib.Rand, tier string) {
 		runMath(w, mIn("atan2", y, -x))
 	}
 	checkHuge(w)
+	genPowExact(w)
 	// thin wrappers against Go's math, bit for bit (sign of zero, NaN-ness): every pool and grid value for
 	// the unary ones, the full grid x grid for the binary ones (special values as base AND exponent), then
 	// random arguments; argument order and arity
@@ -475,6 +476,46 @@ func genMath(w *lib.Writer, r *lib.Rand, tier string) {
 		for _, fn := range one {
 			runMath(w, mIn(fn, x))
 		}
+	}
+}
+
+// powExact runs math.pow where x^y is an exactly representable number that C's pow returns exactly
+// (perfect squares to 1.5 / 2.5, fourth powers to 0.25, powers of ten): the definition's value is
+// known without a library. Go's math.Pow misses some of them by a few ulps (open finding C15-13).
+func powExact(w *lib.Writer, x, y, exact float64) {
+	c := mIn("pow", x, y)
+	res, errs := callMath("pow", lua.LNumber(x), lua.LNumber(y))
+	got := math.NaN()
+	if errs == "" && len(res) == 1 {
+		if n, ok := res[0].(lua.LNumber); ok {
+			got = float64(n)
+		}
+	}
+	impl := sameFloat(got, math.Pow(x, y))
+	spec := sameFloat(got, exact)
+	if impl && spec {
+		w.Meta.GoOnlyChecked++
+		w.Meta.Distribution["math.pow(exact,go-side)"]++
+		return
+	}
+	w.Add(lib.Case{Input: c, Class: "math.pow:exact", Nontrivial: true, KF: []string{"C15-13"},
+		Observed: map[string]any{"result": fmt.Sprintf("%.17g", got), "exact": fmt.Sprintf("%.17g", exact)},
+		Coq: fmt.Sprintf("CGoSide2 %s %s", lib.CoqBool(impl), lib.CoqBool(spec))})
+}
+
+func genPowExact(w *lib.Writer) {
+	for k := 2.0; k <= 40; k++ {
+		powExact(w, k*k, 1.5, k*k*k)
+		powExact(w, k*k, 2.5, k*k*k*k*k)
+		powExact(w, k*k*k*k, 0.25, k)
+		powExact(w, k*k, 0.5, k)
+		powExact(w, k, 3, k*k*k)
+	}
+	for n := -22; n <= 22; n++ {
+		powExact(w, 10, float64(n), math.Pow10(n))
+	}
+	for _, n := range []int{33, 100, 308, -23, -100, -300} {
+		powExact(w, 10, float64(n), math.Pow10(n))
 	}
 }
 
